@@ -324,7 +324,19 @@ impl<'a, 'tcx> Cx<'a, 'tcx> {
                 ("a", self.operand(a)),
             ]),
             Rvalue::Discriminant(p) => {
-                J::Obj(vec![("k", s("discr")), ("place", self.place(p))])
+                let pty = p.ty(&self.body.local_decls, tcx).ty;
+                let mut o: Vec<(&'static str, J)> =
+                    vec![("k", s("discr")), ("place", self.place(p)), ("pty", s(ty_s(pty)))];
+                if let ty::Adt(def, _) = pty.kind() {
+                    o.push(("adt", s(tcx.def_path_str(def.did()))));
+                    let mut vs = Vec::new();
+                    for (vi, v) in def.variants().iter_enumerated() {
+                        let d = def.discriminant_for_variant(tcx, vi).val;
+                        vs.push(J::Arr(vec![J::Int(d as i128), s(v.name.to_string())]));
+                    }
+                    o.push(("variants", J::Arr(vs)));
+                }
+                J::Obj(o)
             }
             Rvalue::Aggregate(kind, ops) => {
                 let mut o: Vec<(&'static str, J)> = vec![("k", s("agg"))];
